@@ -42,9 +42,14 @@ type Shape struct {
 	Oversize int
 	// NonEmpty makes every container hold at least one element (so the payload has at least one item)
 	NonEmpty bool
+	// Fixed makes every container hold exactly its maximum (no draw)
+	Fixed bool
 }
 
 func (sh Shape) count(tp *simkit.Tape, max int) int {
+	if sh.Fixed {
+		return max
+	}
 	if sh.NonEmpty {
 		if max < 1 {
 			max = 1
